@@ -161,10 +161,18 @@ fn lex(src: &str) -> (Vec<Tok>, Vec<(usize, usize)>) {
     (toks, strip)
 }
 
+fn hash_on() -> bool {
+    std::env::var("SYNCMC_HASH").map(|v| v != "0").unwrap_or(true)
+}
+
 /// Re-binding of a path into the standard library's synchronisation / threading modules:
 /// the new leading segments and how many of the old ones they replace.
 fn rebind(p: &[String]) -> Option<(&'static str, usize)> {
     let seg = |i: usize| p.get(i).map(|s| s.as_str()).unwrap_or("");
+    if hash_on() && seg(0) == "std" && seg(1) == "collections" && (seg(2) == "HashMap" || seg(2) == "HashSet") {
+        // std's map with a hasher whose seed the explorer owns (iteration order is an environment answer)
+        return Some(("crate::sx", 2));
+    }
     match (seg(0), seg(1), seg(2)) {
         ("std" | "core", "sync", "atomic") => Some(("shuttle::sync", 2)),
         ("std", "sync", "Mutex" | "MutexGuard" | "RwLock" | "RwLockReadGuard" | "RwLockWriteGuard" | "Condvar" | "Once" | "Barrier" | "mpsc") => Some(("shuttle::sync", 2)),
@@ -211,6 +219,8 @@ fn use_tree(toks: &[Tok], mut i: usize, prefix: Vec<String>, out: &mut Vec<(Vec<
 }
 
 fn rewrite(src: &str, self_mod: &str, crate_map: &[(&str, &str)], sync: bool) -> String {
+    // `sync == false` (harness modules, the hook file): only the hash collections are re-bound
+    let keep = |p: &[String]| -> bool { sync || p.get(1).map(|s| s == "collections").unwrap_or(false) };
     let (toks, strip) = lex(src);
     let mut edits: Vec<(usize, usize, String)> = strip.into_iter().map(|(s, e)| (s, e, String::new())).collect();
     let mut i = 0;
@@ -219,15 +229,15 @@ fn rewrite(src: &str, self_mod: &str, crate_map: &[(&str, &str)], sync: bool) ->
         let prev = if i > 0 { toks[i - 1].text.as_str() } else { "" };
         let next = toks.get(i + 1).map(|x| x.text.as_str()).unwrap_or("");
         // `use std::...` statements that mention `sync`: flatten and re-bind leaf by leaf
-        if sync && t.text == "use" && toks.get(i + 1).map(|x| x.text == "std" || x.text == "core").unwrap_or(false) {
+        if t.text == "use" && toks.get(i + 1).map(|x| x.text == "std" || x.text == "core").unwrap_or(false) {
             let mut flat = vec![];
             let end = use_tree(&toks, i + 1, vec![], &mut flat);
-            if toks.get(end).map(|x| x.text == ";").unwrap_or(false) && flat.iter().any(|(p, _)| rebind(p).is_some()) {
+            if toks.get(end).map(|x| x.text == ";").unwrap_or(false) && flat.iter().any(|(p, _)| rebind(p).is_some() && keep(p)) {
                 let vis_start = t.start;
                 let mut text = String::new();
                 for (p, alias) in flat {
                     let mut p = p;
-                    if let Some((tgt, n)) = rebind(&p) {
+                    if let Some((tgt, n)) = rebind(&p).filter(|_| keep(&p)) {
                         let rest = p.split_off(n);
                         p = tgt.split("::").map(|s| s.to_string()).chain(rest).collect();
                     }
@@ -248,14 +258,14 @@ fn rewrite(src: &str, self_mod: &str, crate_map: &[(&str, &str)], sync: bool) ->
             }
         }
         // full paths `std::sync::X`, `core::sync::atomic::X`, `std::thread::x` in code
-        if sync && (t.text == "std" || t.text == "core") && next == "::" && prev != "::" {
+        if (t.text == "std" || t.text == "core") && next == "::" && prev != "::" {
             let mut p = vec![t.text.clone()];
             let mut j = i + 1;
             while p.len() < 3 && toks.get(j).map(|x| x.text == "::").unwrap_or(false) && toks.get(j + 1).map(|x| is_ident_start(x.text.as_bytes()[0])).unwrap_or(false) {
                 p.push(toks[j + 1].text.clone());
                 j += 2;
             }
-            if let Some((tgt, n)) = rebind(&p) {
+            if let Some((tgt, n)) = rebind(&p).filter(|_| keep(&p)) {
                 // replace the first n segments
                 edits.push((t.start, toks[i + 2 * (n - 1)].end, tgt.to_string()));
             }
@@ -324,6 +334,11 @@ fn main() {
     println!("cargo:rerun-if-changed=build.rs");
     let repo = std::env::var("SYNCMC_REPO").unwrap_or_else(|_| "/repo".into());
     println!("cargo:rerun-if-env-changed=SYNCMC_REPO");
+    println!("cargo:rerun-if-env-changed=SYNCMC_HASH");
+    println!("cargo:rustc-check-cfg=cfg(syncmc_hash)");
+    if hash_on() {
+        println!("cargo:rustc-cfg=syncmc_hash");
+    }
     let here = PathBuf::from(std::env::var("CARGO_MANIFEST_DIR").unwrap());
     let gen = here.join("src/gen");
     // a file added to or removed from the crates must also trigger the copy
